@@ -90,6 +90,7 @@ type FCtx struct {
 	curCon   *Contract
 	rangeCtr map[ast.Node]types.Object
 	lastDryFields map[int]map[int]bool
+	exitApplied   map[int]int
 }
 
 func (c *FCtx) oblige(st *State, kind, name string, goal *Term, pos string) {
